@@ -997,6 +997,11 @@ fn sem_case(case: u64, rng: &mut Rng, rep: &mut Report, queries_per_corpus: usiz
                     let sig = if kind.starts_with("lenient") || kind.starts_with("panic-lenient") {
                         // not shrunk (the lenient parser is not re-run on derived texts)
                         format!("sem:{kind}")
+                    } else if kind == "mismatch" && has_duplicate_siblings(&min_node) {
+                        // the grammar drops a repeated operand and then unwraps the one-element
+                        // clause that is left, which lifts its `+`/`-` out of the parentheses:
+                        // `(+a +a) b` is read as `+a b`; the literals involved do not matter
+                        "sem:mismatch:repeated-operand-in-parentheses".to_string()
                     } else if kind.starts_with("panic") {
                         // the panic site is the signature; the shrunk query is the witness
                         format!("sem:{kind}")
